@@ -25,6 +25,7 @@ type Flow struct {
 	exitAtoms map[*cfg.Block][]*Atom // deferred atoms appended at each exit block
 	defers []*deferRec
 	dom   map[*cfg.Block]map[*cfg.Block]bool
+	backEdges map[Edge]bool
 }
 
 type Atom struct {
@@ -1150,25 +1151,22 @@ func (f *Flow) Returns() []*Atom {
 
 type cfgBlock = cfg.Block
 
-// loopBackEdges: edges that re-enter a loop head (range/for) from inside the loop body or post block.
+// loopBackEdges: edges b→s where s dominates b (natural-loop back edges).
 func (f *Flow) loopBackEdges() map[Edge]bool {
+	if f.backEdges != nil {
+		return f.backEdges
+	}
 	out := map[Edge]bool{}
 	for _, b := range f.G.Blocks {
 		if !b.Live {
 			continue
 		}
 		for i, s := range b.Succs {
-			if (s.Kind == cfg.KindRangeLoop || s.Kind == cfg.KindForLoop || s.Kind == cfg.KindForPost) && s.Index <= b.Index {
+			if s.Index <= b.Index && f.mustPass(s, b) {
 				out[Edge{b, i}] = true
-			}
-			if s.Kind == cfg.KindRangeLoop || s.Kind == cfg.KindForLoop {
-				if b.Kind == cfg.KindRangeBody || b.Kind == cfg.KindForBody || b.Kind == cfg.KindForPost || b.Kind == cfg.KindIfDone || b.Kind == cfg.KindIfThen || b.Kind == cfg.KindIfElse {
-					if s.Index < b.Index {
-						out[Edge{b, i}] = true
-					}
-				}
 			}
 		}
 	}
+	f.backEdges = out
 	return out
 }
